@@ -443,8 +443,12 @@ def write_nc(inp, path, rng=None):
     if "enc" not in st:
         st = dict(st)
         st.setdefault("enc", r.sample(NC_MISSING_ENC, r.randint(1, 3)) if rng is not None else ["fill"])
-        st.setdefault("order", {"time": list(range(len(inp["times"]))), "leadtime": list(range(len(inp["leadtimes"]))),
-                                "location": list(range(len(inp["locs"])))})
+        order = {"time": list(range(len(inp["times"]))), "leadtime": list(range(len(inp["leadtimes"]))),
+                 "location": list(range(len(inp["locs"])))}
+        if rng is not None and r.random() < 0.5:
+            for k in order:
+                r.shuffle(order[k])          # NetCDF files may store their dimension entries in any order
+        st.setdefault("order", order)
         st.setdefault("vars", {"location": True, "lat": True, "lon": True, "altitude": True})
         fits = max(inp["times"]) < 2 ** 31 - 1
         st.setdefault("time_type", "i4" if (fits and r.random() < 0.5) else "f8")
